@@ -7,6 +7,8 @@ type nat =
 | O
 | S of nat
 
+val fst : ('a1 * 'a2) -> 'a1
+
 val snd : ('a1 * 'a2) -> 'a2
 
 val length : 'a1 list -> nat
@@ -52,6 +54,8 @@ val sub : nat -> nat -> nat
 
 module Nat :
  sig
+  val eqb : nat -> nat -> bool
+
   val leb : nat -> nat -> bool
 
   val ltb : nat -> nat -> bool
@@ -130,6 +134,10 @@ module Coq_Pos :
 
 module N :
  sig
+  val add : Big_int_Z.big_int -> Big_int_Z.big_int -> Big_int_Z.big_int
+
+  val mul : Big_int_Z.big_int -> Big_int_Z.big_int -> Big_int_Z.big_int
+
   val of_nat : nat -> Big_int_Z.big_int
  end
 
@@ -144,6 +152,12 @@ val ascii_of_pos : Big_int_Z.big_int -> char
 val ascii_of_N : Big_int_Z.big_int -> char
 
 val ascii_of_nat : nat -> char
+
+val n_of_digits : bool list -> Big_int_Z.big_int
+
+val n_of_ascii : char -> Big_int_Z.big_int
+
+val hd : 'a1 -> 'a1 list -> 'a1
 
 val hd_error : 'a1 list -> 'a1 option
 
@@ -163,6 +177,8 @@ val fold_right : ('a2 -> 'a1 -> 'a1) -> 'a1 -> 'a2 list -> 'a1
 
 val existsb : ('a1 -> bool) -> 'a1 list -> bool
 
+val forallb : ('a1 -> bool) -> 'a1 list -> bool
+
 val filter : ('a1 -> bool) -> 'a1 list -> 'a1 list
 
 val find : ('a1 -> bool) -> 'a1 list -> 'a1 option
@@ -170,6 +186,8 @@ val find : ('a1 -> bool) -> 'a1 list -> 'a1 option
 val firstn : nat -> 'a1 list -> 'a1 list
 
 val skipn : nat -> 'a1 list -> 'a1 list
+
+val seq : nat -> nat -> nat list
 
 module Z :
  sig
@@ -209,6 +227,8 @@ module Z :
 
   val of_nat : nat -> Big_int_Z.big_int
 
+  val of_N : Big_int_Z.big_int -> Big_int_Z.big_int
+
   val to_pos : Big_int_Z.big_int -> Big_int_Z.big_int
 
   val to_int : Big_int_Z.big_int -> signed_int
@@ -233,6 +253,8 @@ module Z :
 val zeq_bool : Big_int_Z.big_int -> Big_int_Z.big_int -> bool
 
 val length0 : string -> nat
+
+
 
 type q = { qnum : Big_int_Z.big_int; qden : Big_int_Z.big_int }
 
@@ -1073,6 +1095,295 @@ type tok =
 | TS of string
 
 val exn_name : exn -> string
+
+val space_ranges : (Big_int_Z.big_int * Big_int_Z.big_int) list
+
+val linebreak_ranges : (Big_int_Z.big_int * Big_int_Z.big_int) list
+
+val digit_ranges :
+  ((Big_int_Z.big_int * Big_int_Z.big_int) * Big_int_Z.big_int) list
+
+val int_max_str_digits : Big_int_Z.big_int
+
+type ustr = Big_int_Z.big_int list
+
+val in_ranges :
+  Big_int_Z.big_int -> (Big_int_Z.big_int * Big_int_Z.big_int) list -> bool
+
+val digit_in :
+  Big_int_Z.big_int ->
+  ((Big_int_Z.big_int * Big_int_Z.big_int) * Big_int_Z.big_int) list ->
+  Big_int_Z.big_int option
+
+val is_space : Big_int_Z.big_int -> bool
+
+val is_linebreak : Big_int_Z.big_int -> bool
+
+val digit_value : Big_int_Z.big_int -> Big_int_Z.big_int option
+
+val is_digit : Big_int_Z.big_int -> bool
+
+val ustr_eqb : ustr -> ustr -> bool
+
+val starts_with : ustr -> ustr -> bool
+
+val ends_with : ustr -> ustr -> bool
+
+val lstrip_c : Big_int_Z.big_int -> ustr -> ustr
+
+val rstrip_c : Big_int_Z.big_int -> ustr -> ustr
+
+val strip_c : Big_int_Z.big_int -> ustr -> ustr
+
+val split_on_aux : Big_int_Z.big_int -> ustr -> ustr -> ustr list
+
+val split_on : Big_int_Z.big_int -> ustr -> ustr list
+
+val flush : ustr -> ustr list
+
+val split_ws_aux : ustr -> ustr -> ustr list
+
+val split_ws : ustr -> ustr list
+
+val splitlines_aux : ustr -> ustr -> ustr list
+
+val splitlines : ustr -> ustr list
+
+val cQUOTE : Big_int_Z.big_int
+
+val cHASH : Big_int_Z.big_int
+
+val cLPAR : Big_int_Z.big_int
+
+val cRPAR : Big_int_Z.big_int
+
+val cSTAR : Big_int_Z.big_int
+
+val cMINUS : Big_int_Z.big_int
+
+val cSLASH : Big_int_Z.big_int
+
+val cZERO : Big_int_Z.big_int
+
+val cEQ : Big_int_Z.big_int
+
+val cLBRK : Big_int_Z.big_int
+
+val cRBRK : Big_int_Z.big_int
+
+val cSP : Big_int_Z.big_int
+
+val all_digits : ustr -> bool
+
+val is_sdigits : ustr -> bool
+
+val digit_or0 : Big_int_Z.big_int -> Big_int_Z.big_int
+
+val int_of_digits : ustr -> Big_int_Z.big_int
+
+val py_int : ustr -> Big_int_Z.big_int res
+
+val p_int : ustr -> Big_int_Z.big_int res
+
+val zmem : Big_int_Z.big_int -> Big_int_Z.big_int list -> bool
+
+val zset_add :
+  Big_int_Z.big_int -> Big_int_Z.big_int list -> Big_int_Z.big_int list
+
+val zmap_set :
+  Big_int_Z.big_int -> 'a1 -> (Big_int_Z.big_int * 'a1) list ->
+  (Big_int_Z.big_int * 'a1) list
+
+val smap_get :
+  ustr -> (ustr * Big_int_Z.big_int) list -> Big_int_Z.big_int option
+
+val smem : ustr -> ustr list -> bool
+
+val has_dup : Big_int_Z.big_int list -> bool
+
+type tk_act =
+| TYield
+| TSkip
+| TBreak
+
+val tok_step :
+  ustr -> Big_int_Z.big_int -> bool -> (tk_act * Big_int_Z.big_int) * bool
+
+val tok_line :
+  ustr list -> Big_int_Z.big_int -> bool -> (ustr
+  list * Big_int_Z.big_int) * bool
+
+val tok_lines : ustr list -> Big_int_Z.big_int -> bool -> ustr list
+
+val tokenize : ustr -> ustr list
+
+type 'a pres =
+| POk of 'a
+| PStop
+| PRaise of exn
+
+val pbind : 'a1 pres -> ('a1 -> 'a2 pres) -> 'a2 pres
+
+val lift : 'a1 res -> 'a1 pres
+
+val ePE : 'a1 pres
+
+type pst = { s_nCand : Big_int_Z.big_int; s_nSeats : Big_int_Z.big_int;
+             s_withdrawn : Big_int_Z.big_int list;
+             s_undeclared : Big_int_Z.big_int list;
+             s_tieOrder : (Big_int_Z.big_int * Big_int_Z.big_int) list;
+             s_nickName : (Big_int_Z.big_int * ustr) list;
+             s_nickCid : (ustr * Big_int_Z.big_int) list;
+             s_options : ustr list; s_nBallots : Big_int_Z.big_int;
+             s_lines : (Big_int_Z.big_int * Big_int_Z.big_int list) list;
+             s_linesEq : (Big_int_Z.big_int * Big_int_Z.big_int list list)
+                         list; s_ballotIDs : ustr list }
+
+val init_pst : Big_int_Z.big_int -> Big_int_Z.big_int -> pst
+
+val set_withdrawn : pst -> Big_int_Z.big_int list -> pst
+
+val set_undeclared : pst -> Big_int_Z.big_int list -> pst
+
+val set_tie : pst -> (Big_int_Z.big_int * Big_int_Z.big_int) list -> pst
+
+val set_nick :
+  pst -> (Big_int_Z.big_int * ustr) list -> (ustr * Big_int_Z.big_int) list
+  -> pst
+
+val set_options : pst -> ustr list -> pst
+
+val add_line : pst -> Big_int_Z.big_int -> Big_int_Z.big_int list -> pst
+
+val add_lineEq :
+  pst -> Big_int_Z.big_int -> Big_int_Z.big_int list list -> pst
+
+val add_ballotID : pst -> ustr -> pst
+
+val getCid : pst -> ustr -> Big_int_Z.big_int res
+
+val map_res : ('a1 -> 'a2 res) -> 'a1 list -> 'a2 list res
+
+val tie_loop :
+  pst -> ustr list -> Big_int_Z.big_int ->
+  (Big_int_Z.big_int * Big_int_Z.big_int) list ->
+  (Big_int_Z.big_int * Big_int_Z.big_int) list res
+
+val option_tie : pst -> ustr list -> pst res
+
+val nick_loop :
+  ustr list -> Big_int_Z.big_int -> (Big_int_Z.big_int * ustr) list ->
+  (ustr * Big_int_Z.big_int) list -> ((Big_int_Z.big_int * ustr)
+  list * (ustr * Big_int_Z.big_int) list) res
+
+val option_nick : pst -> ustr list -> pst res
+
+val cidset_loop :
+  pst -> ustr list -> Big_int_Z.big_int list -> Big_int_Z.big_int list res
+
+val s_tie : Big_int_Z.big_int list
+
+val s_nick : Big_int_Z.big_int list
+
+val s_droop : Big_int_Z.big_int list
+
+val s_withdrawn_kw : Big_int_Z.big_int list
+
+val s_undeclared_kw : Big_int_Z.big_int list
+
+val apply_option : pst -> ustr -> ustr list -> pst res
+
+type omode =
+| ONone
+| OCollect of ustr * ustr list
+
+val opts : ustr list -> pst -> omode -> (pst * ustr list) pres
+
+val array_max : Big_int_Z.big_int -> Big_int_Z.big_int
+
+val ballot_line :
+  pst -> Big_int_Z.big_int -> Big_int_Z.big_int list list -> pst res
+
+val finish_bid : pst -> ustr -> pst res
+
+type bmode =
+| BHead
+| BBid of ustr
+| BRank of Big_int_Z.big_int * Big_int_Z.big_int list list
+
+val ballots0 : ustr list -> pst -> bmode -> (pst * ustr list) pres
+
+val names0 :
+  ustr list -> Big_int_Z.big_int -> Big_int_Z.big_int -> ustr option ->
+  (Big_int_Z.big_int * ustr) list -> ((Big_int_Z.big_int * ustr) list * ustr
+  list) pres
+
+val read_quoted : ustr list -> ustr -> (ustr * ustr list) option
+
+val unquote : ustr -> ustr
+
+val opt_string : ustr list -> (ustr * ustr list) option pres
+
+type profile0 = { p_nCand : Big_int_Z.big_int; p_nSeats : Big_int_Z.big_int;
+                  p_title : ustr; p_source : ustr option;
+                  p_comment : ustr option; p_nBallots : Big_int_Z.big_int;
+                  p_eligible : Big_int_Z.big_int list;
+                  p_withdrawn : Big_int_Z.big_int list;
+                  p_undeclared : Big_int_Z.big_int list;
+                  p_candName : (Big_int_Z.big_int * ustr) list;
+                  p_candOrder : (Big_int_Z.big_int * Big_int_Z.big_int) list;
+                  p_lines : (Big_int_Z.big_int * Big_int_Z.big_int list) list;
+                  p_linesEq : (Big_int_Z.big_int * Big_int_Z.big_int list
+                              list) list;
+                  p_tieOrder : (Big_int_Z.big_int * Big_int_Z.big_int) list;
+                  p_nickName : (Big_int_Z.big_int * ustr) list;
+                  p_options : ustr list }
+
+type parsed = { r_st : pst; r_names : (Big_int_Z.big_int * ustr) list;
+                r_title : ustr; r_source : ustr option;
+                r_comment : ustr option }
+
+val parse_tail : pst -> ustr list -> parsed pres
+
+val blt_parse_raw : ustr list -> parsed pres
+
+val blt_parse : ustr list -> parsed res
+
+val validate : pst -> Big_int_Z.big_int list -> unit res
+
+val ustr_of_string : string -> ustr
+
+val ustr_of_Z : Big_int_Z.big_int -> ustr
+
+val cids_upto : Big_int_Z.big_int -> Big_int_Z.big_int list
+
+val finish : parsed -> profile0 res
+
+val parse_tokens : ustr list -> profile0 res
+
+val parse : ustr -> profile0 res
+
+val strip_bom : ustr -> ustr
+
+val parse_file : ustr -> profile0 res
+
+val nl : string
+
+val show_zs : Big_int_Z.big_int list -> string
+
+val show_opt : ustr option -> string
+
+val show_lines : ('a1 -> string) -> 'a1 list -> string
+
+val show_ranks : Big_int_Z.big_int list list -> string
+
+val show_profile : profile0 -> string
+
+val show_parse : profile0 res -> string
+
+val toks_zs : tok list -> Big_int_Z.big_int list
+
+val run_parse : tok list -> string
 
 val show_resZ : Big_int_Z.big_int res -> string
 
